@@ -99,7 +99,8 @@ Definition norm_psec (s : psec) : psec :=
   end.
 
 (* the options are looked up the way the DOM writer passes them (dict comprehension with [format] renamed);
-   for a dict with unique keys among encoding/format this is the plain lookup (DomSpecFacts.remap_kw) *)
+   for a dict with unique keys among encoding/format this is the plain lookup of [encoding] and [format]
+   (DomSpecFacts.remap_kw_meta, norm_msec_plain; for diffs remap_kw_diff, norm_dsec_plain) *)
 Definition norm_msec (s : msec) : msec :=
   if is_nil (m_content s) then new_msec else
   let o := remap "meta" (m_opts s) in
